@@ -546,3 +546,33 @@ Definition explain (cs : list case) : list (nat * nat * list string * option res
          | (k, _, _) :: _ => (fst m, k, ["length"], None, None)
          | [] => (fst m, 0%nat, [], None, None)
          end) (mismatches cs).
+
+(* ---------- API-path class: histories of HTTP requests (server/api/config.go: get -> unmarshal the request into what the
+   getter returned -> set).  Around every request the driver takes the full served configuration (all six sections, JSON;
+   compared here by digest) and the served / reloaded projections.  No model state is involved. ---------- *)
+Definition jstep := (string * res * string * string * conf * conf)%type.  (* path, result, digest before, digest after, served, reloaded *)
+(* a step with path "leader-change" is not a request: the served options were reloaded from storage and the cluster restarted,
+   as a newly elected leader does; its last component is what was served BEFORE.  (After an applied-but-reported-failed write
+   storage may legitimately be ahead: those steps have another path and are not judged.) *)
+Definition jcase := list jstep.
+Definition mon_jstep (st : jstep) : list string :=
+  let '(path, r, before, after, sv, rl) := st in
+  if String.eqb path "leader-change" then
+    (if conf_eqb sv (normalise rl) then [] else ["C18:new-leader-serves-a-different-configuration"])
+  else if String.eqb path "leader-change-after-unknown-write" then []
+  else if is_ok r then
+    (* an accepted change is what a new leader reloads *)
+    (if conf_eqb rl (normalise sv) then [] else ["C18:accepted-change-not-reloaded"])
+  else
+    (* a rejected request leaves the served configuration exactly as it was: every item of every section *)
+    (if String.eqb before after then []
+     else if String.eqb path "/config/replication-mode"
+          then ["C18:rejected-replication-mode-request-altered-served"]
+          else ["C18:rejected-request-altered-served-config"]).
+Definition monitor_j (c : jcase) : list string := nodup string_dec (flat_map mon_jstep c).
+Fixpoint monitor_j_fails_from (n : nat) (cs : list jcase) : list (nat * string) :=
+  match cs with
+  | [] => []
+  | c :: r => (map (fun sg => (n, sg)) (monitor_j c) ++ monitor_j_fails_from (S n) r)%list
+  end.
+Definition monitor_j_fails := monitor_j_fails_from 0.
